@@ -169,7 +169,10 @@ HIST_ASSUME = ["rustc/std Vec, slice and sort implementations", "TLC and the Com
 def p_C05(ctx):
     ctx.rule = ("history cases as C01 (edges of the history machine + random walks) replayed with the ledger-carrying element "
                 "type and the zero-sized type; after every step: no double drop, no dead/duplicated cell, live elements = "
-                "array + handed to caller; at the end nothing live. distinct by (final call, args, shape, prefix tail)")
+                "array + handed to caller; at the end nothing live.  Plus (never twice / never while reachable is unconditional) the fault "
+                "edges of C11 and the leak edges of C12 and random fault histories, validated by TooDeeTrace.tla; of those only "
+                "rejections whose event shows a double drop, a duplicated owner or a dead reachable cell count for C05. "
+                "distinct by (final call, args, shape, prefix tail)")
     ctx.assumptions = HIST_ASSUME
     rawmem_check(ctx)      # Layer B: the raw-memory algorithms satisfy the memory-level invariants at every crash point
     m = 3 if ctx.quick else 4
@@ -192,6 +195,24 @@ def p_C05(ctx):
                            profile="release", invariants=("ShapeOK", "HandleOK"))
     ctx.drive_and_validate("drive-hist-zst", ["hist", ctx.seed + 3, nh, steps, 5, "{out}", "zst"], "TooDeeTrace", attr_hist_event,
                            profile="dev", invariants=("ShapeOK", "HandleOK"))
+    # "never twice, never while reachable" is unconditional: histories with a panic in caller code or a leaked drain / iterator
+    # count too (C11 / C12 judge the array left behind; here only the ledger part of a rejection is attributed to C05)
+    fm = 3
+    rf = hist_tlc_edges(ctx, "faults", fm, fm, ops=("none",), faults=("iter", "clone", "default", "drop", "cmp"), workers=4)
+    ctx.replay_and_validate(rf.cases_path, attr_fault_replay, attr_fault_event, profile="dev", elem="elem", cap=0, label="faults")
+    rl = hist_tlc_edges(ctx, "leaks", fm, fm, ops=("leak_borrow",), faults=("forget",), workers=4)
+    ctx.replay_and_validate(rl.cases_path, attr_fault_replay, attr_fault_event, profile="release", elem="elem", cap=1, label="leaks")
+    if not ctx.quick:
+        ctx.replay_and_validate(rf.cases_path, attr_fault_replay, attr_fault_event, profile="release", elem="elem", cap=2, label="faults")
+        ctx.replay_and_validate(rl.cases_path, attr_fault_replay, attr_fault_event, profile="dev", elem="zst", cap=0, label="leaks")
+
+    def attr_fault_drive_event(case, ev):
+        f = ev.get("fault", {})
+        return ({"C11"} if f.get("kind") in ("panic_at", "lie") else {"C11", "C12"}) | ({"C05"} if ledger_evidence(ev) else set()), \
+            {"family": "fault-drive", "op": ev.get("ev"), "kind": "trace_rejected", "fault": f.get("kind")}
+    nh, steps = (250, 40) if ctx.quick else (3000, 80)
+    ctx.drive_and_validate("drive-faults", ["hist", ctx.seed + 21, nh, steps, 6, "{out}", "elem", "faults"], "TooDeeTrace",
+                           attr_fault_drive_event, profile="dev", invariants=("ShapeOK", "HandleOK"))
 
 
 def p_C06(ctx):
@@ -739,7 +760,16 @@ def attr_fault_replay(case, fail):
     if 0 <= step < nsteps - 1:
         return attr_hist(case, fail)      # a divergence before the fault belongs to the ordinary property
     props = {"C12"} if fk == "forget" else {"C11"}
+    if fail["kind"].startswith("ledger"):
+        props.add("C05")                  # dropped twice / dropped while reachable: unconditional in C05
     return props, {"family": "fault", "op": fop, "kind": fail["kind"], "fault": fk}
+
+
+def ledger_evidence(ev):
+    """The rejected event itself shows an element dropped twice (dd), one element owned by two cells (dup: it will be
+    dropped twice) or a dropped element still reachable through the array (dead): C05 forbids these in every history."""
+    post = ev.get("post") if isinstance(ev.get("post"), dict) else {}
+    return (ev.get("dd", 0) or 0) > 0 or (post.get("dup", 0) or 0) > 0 or (post.get("dead", 0) or 0) > 0
 
 
 def attr_fault_event(case, ev):
@@ -752,6 +782,8 @@ def attr_fault_event(case, ev):
         props = set(HIST_OP_PROPS.get(op, set())) | {"C01", "C05"}
         return props, {"family": "trace", "op": op, "kind": "trace_rejected"}
     props = {"C12"} if fk == "forget" else {"C11"}
+    if ledger_evidence(ev):
+        props.add("C05")
     site = None
     for st in case["steps"]:
         if st.get("fault"):
@@ -786,7 +818,7 @@ def p_C11(ctx):
     # fault is validated from the state the real crate was left in ("then or later")
     def attr_fault_drive_event(case, ev):
         f = ev.get("fault", {})
-        return ({"C11"} if f.get("kind") in ("panic_at", "lie") else {"C11", "C12"}), {"family": "fault-drive", "op": ev.get("ev"), "kind": "trace_rejected", "fault": f.get("kind")}
+        return ({"C11"} if f.get("kind") in ("panic_at", "lie") else {"C11", "C12"}) | ({"C05"} if ledger_evidence(ev) else set()), {"family": "fault-drive", "op": ev.get("ev"), "kind": "trace_rejected", "fault": f.get("kind")}
     nh, steps = (250, 40) if ctx.quick else (3000, 80)
     for prof, seed_off in (("dev", 21), ("release", 22)):
         ctx.drive_and_validate("drive-faults", ["hist", ctx.seed + seed_off, nh, steps, 6, "{out}", "elem", "faults"], "TooDeeTrace",
@@ -812,7 +844,7 @@ def p_C12(ctx):
     # fault is validated from the state the real crate was left in ("then or later")
     def attr_fault_drive_event(case, ev):
         f = ev.get("fault", {})
-        return ({"C12"} if f.get("kind") == "forget" else {"C11", "C12"}), {"family": "fault-drive", "op": ev.get("ev"), "kind": "trace_rejected", "fault": f.get("kind")}
+        return ({"C12"} if f.get("kind") == "forget" else {"C11", "C12"}) | ({"C05"} if ledger_evidence(ev) else set()), {"family": "fault-drive", "op": ev.get("ev"), "kind": "trace_rejected", "fault": f.get("kind")}
     nh, steps = (250, 40) if ctx.quick else (3000, 80)
     for prof, seed_off in (("dev", 21), ("release", 22)):
         ctx.drive_and_validate("drive-faults", ["hist", ctx.seed + seed_off, nh, steps, 6, "{out}", "elem", "faults"], "TooDeeTrace",
